@@ -435,8 +435,25 @@ func verifC02Search(pi, si int, base time.Time, readers []*Reader, tagDetails ma
 	if err != nil {
 		return fmt.Sprintf("R %d %d ERR %v", pi, si, err)
 	}
+	// excluded form: after normalisation a sub-query occurs that no relation connects to the main query; the
+	// engine does not evaluate it (it is not in SubQueries()), the query behaves as if it were not there
+	status := "OK"
+	if len(q.Conditions) != 0 {
+		qs := q.Conditions.InlineTagFilters(tagDetails)
+		if len(qs) != 0 {
+			evaluated := map[string]bool{}
+			for _, sq := range qs.SubQueries() {
+				evaluated[sq] = true
+			}
+			for _, name := range verifC02SubQueryNames(qs) {
+				if !evaluated[name] {
+					status = "EXCLUDED"
+				}
+			}
+		}
+	}
 	sb := strings.Builder{}
-	fmt.Fprintf(&sb, "R %d %d OK more=%v n=%d |", pi, si, more, len(res))
+	fmt.Fprintf(&sb, "R %d %d %s more=%v n=%d |", pi, si, status, more, len(res))
 	for _, s := range res {
 		fidx := -1
 		for i, r := range readers {
@@ -455,6 +472,46 @@ func verifC02Search(pi, si int, base time.Time, readers []*Reader, tagDetails ma
 			verifC02Hex(hg.get(s.ClientHost)), verifC02Hex(hg.get(s.ServerHost)), proto)
 	}
 	return sb.String()
+}
+
+func verifC02SubQueryNames(qs query.ConditionsSet) []string {
+	seen := map[string]bool{}
+	for _, cs := range qs {
+		for _, c := range cs {
+			switch cc := c.(type) {
+			case *query.TagCondition:
+				seen[cc.SubQuery] = true
+			case *query.FlagCondition:
+				for _, sq := range cc.SubQueries {
+					seen[sq] = true
+				}
+			case *query.HostCondition:
+				for _, h := range cc.HostConditionSources {
+					seen[h.SubQuery] = true
+				}
+			case *query.NumberCondition:
+				for _, h := range cc.Summands {
+					seen[h.SubQuery] = true
+				}
+			case *query.TimeCondition:
+				for _, h := range cc.Summands {
+					seen[h.SubQuery] = true
+				}
+			case *query.DataCondition:
+				for _, h := range cc.Elements {
+					seen[h.SubQuery] = true
+				}
+			}
+		}
+	}
+	out := []string(nil)
+	for k := range seen {
+		if k != "" {
+			out = append(out, k)
+		}
+	}
+	sort.Strings(out)
+	return out
 }
 
 // verifC02DumpSearch writes what the search engine compiles for this query on every file:
